@@ -284,3 +284,54 @@ def minifill(pid):
         res.floor("zero copies into mini chains", n, ctx.table("floors").get("minifill_sites", 0))
         return res
     return run
+
+
+def surplus(pid):
+    """R-SURPLUS: zero_fill_stream clears, for a regular chain, only the rest of the sector that holds the old end: the
+    sectors beyond it are taken to be the ones `set_len` has just appended, which come zero-initialised.  That holds
+    only if a chain never has more sectors than its entry's length needs.  write_data_to_stream breaks it on a fault:
+    it writes through the chain handle - which appends sectors at the end of the chain - and updates the directory
+    entry afterwards; an error exit between the two leaves appended, filled sectors in a chain whose entry still holds
+    the old length.  Decided as the conjunction of the two constructs: (a) the zero source copied into a regular chain
+    is capped at a sector boundary, and (b) in a write-back function an error exit is reachable after a write
+    through a chain handle and before the entry update."""
+    def run(ctx):
+        res = RuleResult("R-SURPLUS(%s)" % pid, "if the zero fill of a regular chain stops at the end of the old last sector, no write-back can fail between appending sectors to the chain and updating the entry's length")
+        capped = []
+        for f in ctx.fx.fns.values():
+            if not f.path.startswith("internal::stream::"):
+                continue
+            v = view(ctx, f)
+            pr = None
+            for bb, c in sorted(v.calls.items()):
+                if not re.search(r"io::copy$", c.name) or len(c.term["args"]) < 2:
+                    continue
+                pr = pr or Prov(f)
+                args = [pr.operand(a) for a in c.term["args"]]
+                if any(re.search(r"repeat\(const:0", a) for a in args) and any("open_chain(" in a for a in args):
+                    src = [a for a in args if re.search(r"repeat\(const:0", a)][0]
+                    if re.search(r"Ord::min\(|cmp::min\(|div_ceil|Rem\(|next_multiple_of", src):
+                        capped.append((f, c))
+        leaky = []
+        for fpath in ctx.table("zero").get("writeback_functions", ["internal::stream::write_data_to_stream"]):
+            f = ctx.fx.fns.get(fpath)
+            if f is None:
+                continue
+            v = view(ctx, f)
+            pg = v.pg
+            stores = [c for c in v.calls.values() if c.name.endswith("with_dir_entry_mut")]
+            chain_writes = [c for c in v.calls.values() if re.search(r"Write::write_all$|Write::write$|io::copy$", c.name) and "io_write" in ctx.cg.call_effects(c)]
+            errs = set(v.all_err_nodes())
+            for w in chain_writes:
+                after = pg.reach_after(("t", w.bb), avoid={("t", s_.bb) for s_ in stores})
+                if any(e in after for e in errs) or any(e in (v.err_nodes(w.bb) or []) for e in errs):
+                    leaky.append((f, w))
+                    break
+        if capped and leaky:
+            f, c = capped[0]
+            res.fail(Finding(res.rule, "R-SURPLUS/stream-layer/regular-fill-capped-while-a-failed-write-back-leaves-surplus-sectors", "%s clears a regular chain only up to the end of the sector that holds the old end, and %s can fail after sectors were appended to the chain and filled but before the entry's length is updated: a later growing set_len reuses those sectors and the stream's own discarded bytes read back where zeros are promised" % (f.path.split("::")[-1], leaky[0][0].path.split("::")[-1]), f, c.term["span"]))
+        else:
+            res.ok({"regular_fill_capped_at_sector_end": bool(capped), "write_back_can_fail_between_append_and_entry_update": bool(leaky)}, nontrivial=True)
+        res.floor("zero copies into regular chains", len(capped) if capped else 0, 0)
+        return res
+    return run
